@@ -12,7 +12,7 @@ def decode(string):
   return unsafe_decode(string)
 
 def validate_decoded(obj):
-  if isinstance(obj, int):
+  if isinstance(obj, int) and not isinstance(obj, bool):
     pass
   else:
     raise gfapy.TypeError(
@@ -33,7 +33,7 @@ def encode(obj):
   if isinstance(obj, str):
     validate_encoded(obj)
     return obj
-  elif isinstance(obj, int):
+  elif isinstance(obj, int) and not isinstance(obj, bool):
     return str(obj)
   else:
     raise gfapy.TypeError(
